@@ -111,3 +111,16 @@ Example reg_get_loc_examples :
   /\ reg_get_loc (IPer 2) 118 1 5 (LPer 1 120) = Raise KeyError /\ reg_get_loc (IPer 2) 118 1 5 (LInt 120) = Raise KeyError
   /\ reg_get_loc ITs 100 10 4 (LTs 130) = Ret (LPos 3 true) /\ reg_get_loc ITs 100 10 4 (LTs 135) = Raise KeyError.
 Proof. vm_compute. repeat split. Qed.
+
+(* ---------- the plain-index model meets locate_spec for EVERY list of labels (first position) ---------- *)
+Theorem plain_get_loc_spec ls : locate_spec ls (plain_get_loc ls).
+Proof.
+  intros x. unfold plain_get_loc. rewrite index_from_pos. destruct (pos x ls) as [p|]; simpl; [exists true; f_equal; f_equal; lia | reflexivity].
+Qed.
+Theorem plain_contains_spec ls x : plain_contains ls x = match pos x ls with Some _ => true | None => false end.
+Proof. unfold plain_contains. rewrite index_from_pos. destruct (pos x ls); reflexivity. Qed.
+Corollary plain_span_ok ls : span_ok (fun l => plain_get_loc l) (SPandas ls).
+Proof.
+  simpl. intros x. pose proof (plain_get_loc_spec ls x) as H.
+  destruct (pos x ls); [destruct H as [fl H]; exists fl|]; rewrite H; reflexivity.
+Qed.
